@@ -149,6 +149,18 @@ def run(ctx, replay=None):
         seen.add(key)
         tid += 7
         jobs.append((tid, alg, m, n, R, P, q, rk, [ctx.seed * 100 + s for s in seeds]))
+    # every power-iteration / pass count on low-rank inputs with graded retained values (the default n_iter = 2 included)
+    for (m_, n_) in ((5, 4), (4, 6), (6, 6)):
+        for rk_ in (2, 3, 4):
+            for P_ in (2, 10):
+                for alg_, qs in (("rand", (0, 1, 2, 3, 4)), ("pass", (2, 3, 4, 5))):
+                    for q_ in qs:
+                        key = (alg_, m_, n_, rk_, P_, q_, rk_)
+                        if key in seen:
+                            continue
+                        seen.add(key)
+                        tid += 7
+                        jobs.append((tid, alg_, m_, n_, rk_, P_, q_, rk_, [ctx.seed * 100 + s_ for s_ in seeds[:2]]))
     recs = par.pmap(_cell, jobs)
     events, info = S.merge(recs)
     S.judge(ctx, events, info)
